@@ -38,7 +38,7 @@ Inductive rule : Set :=
 (* C11 *)
 | R11_accept_while_listening | R11_accept_without_token | R11_accept_from_stranger
 | R11_retry_too_early | R11_too_many_retries | R11_removed_too_early | R11_heard_but_supervising
-| R11_supervision_never_ends
+| R11_supervision_never_ends | R11_offer_changes_ring_view
 (* C12 *)
 | R12_gap_poll_outside_gap | R12_two_gap_polls_per_visit | R12_reply_without_request | R12_reply_untruthful
 | R12_reply_from_wrong_state
@@ -60,7 +60,7 @@ Definition rule_prop (r : rule) : pid :=
   | R06_no_claim_after_timeout => PC06
   | R11_accept_while_listening | R11_accept_without_token | R11_accept_from_stranger
   | R11_retry_too_early | R11_too_many_retries | R11_removed_too_early | R11_heard_but_supervising
-  | R11_supervision_never_ends => PC11
+  | R11_supervision_never_ends | R11_offer_changes_ring_view => PC11
   | R12_gap_poll_outside_gap | R12_two_gap_polls_per_visit | R12_reply_without_request | R12_reply_untruthful
   | R12_reply_from_wrong_state
   | R12_found_not_successor | R12_found_not_next_token | R12_successor_changed_without_ready_reply | R12_sweep_bound
@@ -250,6 +250,22 @@ Definition mon_poll (p : params) (napps : nat) (m : mon) (s : pstep) : mon * lis
        | _ => [R11_accept_without_token]
        end
      else []) in
+  (* a token offer addressed to this station that is NOT accepted in this poll (the station stays idle: the
+     first offer of a stranger) is only remembered as pending: the ring view - LAS, NS, PS - stays as it was
+     (C11_accept_iff, second conjunct; witness_token_pass runs only when a token is accepted or passes by) *)
+  let e11c :=
+    if state_kind_eqb k1 KActiveIdle && kind_in k0 [KActiveIdle; KCheckTokenPass] &&
+       match s_tx s with None => true | Some _ => false end
+    then match lastt, tels with
+         | Some (TToken da sa), [_] =>
+             if (da =? ts) && negb (sa =? ts)
+             then check ((v_ns post =? v_ns pre) && (v_ps post =? v_ps pre) &&
+                         Bool.eqb (v_las_valid post) (v_las_valid pre) && bytes_eqb (v_active post) (v_active pre))
+                        R11_offer_changes_ring_view
+             else []
+         | _, _ => []
+         end
+    else [] in
   let cand :=
     if state_kind_eqb k1 KActiveIdle then
       if kind_in k0 [KActiveIdle; KCheckTokenPass] then
@@ -292,7 +308,12 @@ Definition mon_poll (p : params) (napps : nat) (m : mon) (s : pstep) : mon * lis
     | None => if kind_in k1 [KCheckTokenPass; KPassToken] then m_pass m else None
     end in
   (* ------------------------------------------------ C12 *)
-  let new_visit := state_kind_eqb k1 KUseToken && negb (kind_in k0 [KUseToken; KAwaitDataResponse]) in
+  (* F20 repair: a visit ends in the poll that finds nothing (more) to send - do_use_token goes on to
+     do_pass_token in the same poll.  A station that is its own successor passes the token to itself in
+     that poll (token TS -> TS out of a token-use state) and is in UseToken again: its next visit. *)
+  let self_pass := kind_in k0 [KUseToken; KAwaitDataResponse] &&
+                   match token_tx with Some (da, sa) => (da =? ts) && (sa =? ts) | None => false end in
+  let new_visit := state_kind_eqb k1 KUseToken && (negb (kind_in k0 [KUseToken; KAwaitDataResponse]) || self_pass) in
   let gap_poll :=
     match txt with
     | Some (TData h _) =>
@@ -367,7 +388,7 @@ Definition mon_poll (p : params) (napps : nat) (m : mon) (s : pstep) : mon * lis
     if new_visit
     then mkMon post left lba' quiet cand pass gap_polls req out (m_turn m2) (m_tt m) now 0 start
     else mkMon post left lba' quiet cand pass gap_polls req out (m_turn m2) (m_prev_tt m) (m_tt m) rounds start in
-  (m3, e01 ++ e06 ++ e11a ++ e11b ++ e12a ++ e12b ++ ecalls ++ e15).
+  (m3, e01 ++ e06 ++ e11a ++ e11c ++ e11b ++ e12a ++ e12b ++ ecalls ++ e15).
 
 (* ------------------------------------------------------------------------------------------ *)
 (* Second group of monitors (state `mon2`): C12 found-becomes-successor and sweep bound, C13 with the
@@ -461,7 +482,12 @@ Definition mon_poll2 (p : params) (napps : nat) (m : mon) (g : mon2) (s : pstep)
               | None => if kind_in k1 [KAwaitStatusResponse; KClaimToken] then g_wait g else None
               end in
   (* ---- C12: sweep bound ---- *)
-  let visit_tx := match token_tx with Some _ => kind_in k0 [KPassToken; KAwaitStatusResponse] | None => false end in
+  (* the token transmission that ends a visit: from PassToken / AwaitStatusResponse, or (F20 repair) in the
+     last poll of the token-use states *)
+  let visit_tx := match token_tx with
+                  | Some _ => kind_in k0 [KPassToken; KAwaitStatusResponse; KUseToken; KAwaitDataResponse]
+                  | None => false
+                  end in
   let claim_tx := match token_tx with Some da => (da =? ts) && kind_in k0 [KListenToken; KActiveIdle; KClaimToken] | None => false end in
   let restart := negb (v_ns post =? v_ns pre) || claim_tx || kind_in k1 [KListenToken; KOffline] in
   let last1 := match gap_poll with
@@ -483,7 +509,9 @@ Definition mon_poll2 (p : params) (napps : nat) (m : mon) (g : mon2) (s : pstep)
                                     else check (now <? h_end g) R13_low_prio_after_hold_time
                                 | _ => []
                                 end) (s_calls s) in
-  let new_visit := state_kind_eqb k1 KUseToken && negb (kind_in k0 [KUseToken; KAwaitDataResponse]) in
+  let self_pass := kind_in k0 [KUseToken; KAwaitDataResponse] &&
+                   match token_tx with Some da => da =? ts | None => false end in
+  let new_visit := state_kind_eqb k1 KUseToken && (negb (kind_in k0 [KUseToken; KAwaitDataResponse]) || self_pass) in
   let hend := if new_visit
               then m_tt m + token_rotation_time p -
                    (if v_gap_due post then p_bits_to_time p (p_slot_bits p + prop_gap_reserve_extra_bits) else 0)
@@ -523,15 +551,19 @@ Definition mon_poll2 (p : params) (napps : nat) (m : mon) (g : mon2) (s : pstep)
            (turn, decl, errs ++ check (Nat.eqb i turn) R15_round_robin)
        end) (s_calls s) (r_turn g, r_decl g, []) in
   let '(turn1, decl1, e_rr) := rr in
+  (* the visit has ended in this poll (C15Proofs: pass_kind, or the next visit of a station that is its own
+     successor): the station is passing the token - PassToken (synchronisation pause), AwaitStatusResponse
+     (GAP request sent), CheckTokenPass (token sent) - or has passed it to itself *)
+  let passed := kind_in k1 [KPassToken; KAwaitStatusResponse; KCheckTokenPass] || self_pass in
   let e_end :=
     if in_vis k0 then
       (if Nat.ltb 0 napps && Nat.eqb decl1 napps
-       then check (state_kind_eqb k1 KPassToken) R15_not_passed_after_all_declined else []) ++
-      (if state_kind_eqb k1 KPassToken
+       then check passed R15_not_passed_after_all_declined else []) ++
+      (if passed
        then check (Nat.eqb decl1 napps || (h_end g <=? now)) R15_passed_before_all_declined else [])
     else [] in
   let turn2 := if state_kind_eqb k1 KOffline then 0%nat else turn1 in
-  let decl2 := if in_vis k1 then (if in_vis k0 then decl1 else 0%nat) else 0%nat in
+  let decl2 := if in_vis k1 then (if in_vis k0 && negb self_pass then decl1 else 0%nat) else 0%nat in
   (* ---- liveness of the waiting states (C12 GAP waits, C11 supervision, C15 reply wait) ----
      While the bus brings nothing new, the wait must end at the first poll later than one slot time
      after the last instant at which the station can have seen anything happen. *)
